@@ -153,7 +153,7 @@ func verifC29Body(out []byte) string {
 // ---------- generator ----------
 
 func verifC29Gen(r *verifutil.Rand, i int, thorough bool) []string {
-	rec := verifC27Gen(r.Fork(), i, thorough)
+	rec := verifC27GenMode(r.Fork(), i, thorough, true)
 	// keep the recording part of the C27 history: reset, w*, restart?, close?
 	var ops []string
 	var ntps []int64
